@@ -453,6 +453,49 @@ def diff_scale(ctx):
                        want[col][1], {'lat': 'north', 'lon': 'east', 'alt': 'down'}[col]))
 
 
+# ------------------------------------------------------------------- DIFF-COLS
+def diff_cols(ctx):
+    """`any column subsets`: the two tables may carry different columns; the difference is taken
+    over the columns both have.  The column set that both operands are restricted to is the
+    intersection of their column indexes (hand-made probe: `.union` - a KeyError / all-NaN
+    columns as soon as the sets differ)."""
+    ctx.rule('DIFF-COLS', 'both tables are restricted to the intersection of their columns before '
+             'they are subtracted')
+    f = ctx.repo.function('transform.compute_state_difference')
+    p1, p2 = f.params[0], f.params[1]
+    n = 0
+    for st in ast.walk(f.node):
+        if not (isinstance(st, ast.Assign) and len(st.targets) == 1 and
+                isinstance(st.targets[0], ast.Name)):
+            continue
+        v = st.value
+        both = {x.value.id for x in ast.walk(v) if isinstance(x, ast.Attribute) and
+                x.attr == 'columns' and isinstance(x.value, ast.Name)}
+        if not ({p1, p2} <= both):
+            continue
+        name = st.targets[0].id
+        used = sum(1 for x in ast.walk(f.node) if isinstance(x, ast.Subscript) and
+                   any(isinstance(y, ast.Name) and y.id == name for y in ast.walk(x.slice)))
+        if used < 2:
+            continue
+        n += 1
+        meth = v.func.attr if isinstance(v, ast.Call) and isinstance(v.func, ast.Attribute) else \
+            ('&' if isinstance(v, ast.BinOp) and isinstance(v.op, ast.BitAnd) else None)
+        if meth is None and isinstance(v, ast.ListComp):
+            meth = 'intersection' if any(isinstance(c, ast.Compare) and
+                                         isinstance(c.ops[0], ast.In)
+                                         for g in v.generators for c in g.ifs) else None
+        ctx.need(meth in ('intersection', '&', 'union', '|', 'difference', 'symmetric_difference',
+                          'append'), 'compute_state_difference: common column set `%s` not read'
+                 % norm_text(v)[:60])
+        ctx.ob('DIFF-COLS', meth in ('intersection', '&'), None, 'common columns = intersection',
+               f=f, node=st, key='common-columns',
+               why='the column set both tables are restricted to is `%s`, not the intersection of '
+                   'their columns: with tables that carry different column subsets a column is '
+                   'requested from a table that does not have it' % norm_text(v)[:70])
+    ctx.floor('DIFF-COLS', n, 1, 'common column sets')
+
+
 # ------------------------------------------------------------------ WRAP-RANGE
 class Iv:
     """interval with open/closed ends and the accumulated shift."""
